@@ -9,7 +9,7 @@ import Lemmas.FixedFloatConv
     * `round32_val`    : value of a float32 rounding (overflow only from `2^127` on; relative error `2^-24` in the normal
                          range, absolute error `2^-150` below it; the result is a float32 value `q·2^t`, `q ≤ 2^24`,
                          `t ≥ -149`),
-    * the bounds of `f64.As`, `f128.As` to `float32`, and of `f64.From` of a `float32`. -/
+    * the bounds of `f64.As`, `f128.As` to `float32` (`f64.From` of a `float32`: Lemmas/FixedFloat32From.lean). -/
 namespace Fixed.FloatLemmas
 open GoSem.F64 Fixed.Rat
 
